@@ -52,27 +52,35 @@ def pep503(name):
     return re.sub(r"(\s|[-_.])+", "-", name).lower()
 
 
-class FakeResponse:
-    def __init__(self, url, status, content):
-        self.url = url
-        self.status_code = status
-        self.content = content
-
-    def raise_for_status(self):
-        if self.status_code >= 400:
-            import requests
-            raise requests.HTTPError("%d for %s" % (self.status_code, self.url), response=self)
-
-    def iter_content(self, n):
-        for i in range(0, len(self.content), n):
-            yield self.content[i:i + n]
+def FakeResponse(url, status, content, content_type=None):
+    """a real ``requests.Response`` carrying canned bytes: ``content``, ``text`` (decoded the way requests decodes: by the
+    charset of the Content-Type header, ISO-8859-1 for text/* without one), ``iter_content``, ``raise_for_status`` ..."""
+    import requests
+    from requests.structures import CaseInsensitiveDict
+    from requests.utils import get_encoding_from_headers
+    r = requests.models.Response()
+    r.status_code = status
+    r.url = url
+    r._content = content
+    r._content_consumed = True
+    if content_type is None:
+        content_type = "text/html; charset=utf-8" if content[:1] == b"<" else "application/octet-stream"
+    r.headers = CaseInsensitiveDict({"Content-Type": content_type, "Content-Length": str(len(content))})
+    r.encoding = get_encoding_from_headers(r.headers)
+    r.reason = "OK" if status < 400 else "Error"
+    return r
 
 
 class FakeIndex:
     """One simple index: {project: {filename: bytes}}; pages list files with relative links and sha256 fragments."""
 
-    def __init__(self, base, projects, with_hash=True, faults=None, served_at=None):
+    def __init__(self, base, projects, with_hash=True, faults=None, served_at=None, attrs=None, files_dir="files",
+                 content_type=None):
         self.base = base.rstrip("/")
+        self.attrs = dict(attrs or {})       # filename -> extra attribute text of its anchor (data-requires-python="...")
+        self.files_dir = files_dir           # the directory the files are kept in (any characters a server may use)
+        self.content_type = content_type     # of the project pages
+        self.hrefs = {}                      # filename -> the href written on the page
         self.projects = projects
         self.with_hash = with_hash
         self.faults = dict(faults or {})     # url -> list of (status, body|None) consumed first
@@ -82,7 +90,7 @@ class FakeIndex:
         self.served_at = served_at.rstrip("/") if served_at else None
 
     def _files_base(self):
-        return (self.served_at or self.base).rsplit("/", 1)[0] + "/files/"
+        return (self.served_at or self.base).rsplit("/", 1)[0] + "/" + self.files_dir + "/"
 
     def handles(self, url):
         return url.startswith(self.base + "/") or url.startswith(self._files_base())
@@ -111,10 +119,12 @@ class FakeIndex:
                             frag = "#md5=" + hashlib.md5(files[fn]).hexdigest()
                         else:
                             frag = "#sha256=" + hashlib.sha256(files[fn]).hexdigest() if self.with_hash else ""
-                        rows.append('<a href="../../files/%s%s">%s</a><br/>' % (fn, frag, fn))
-                    page = "<!DOCTYPE html><html><body><h1>Links for %s</h1>%s</body></html>" % (pname, "\n".join(rows))
+                        self.hrefs[fn] = "../../%s/%s%s" % (self.files_dir, fn, frag)
+                        extra = (" " + self.attrs[fn]) if fn in self.attrs else ""
+                        rows.append('<a href="%s"%s>%s</a><br/>' % (self.hrefs[fn], extra, fn))
+                    page = "<!DOCTYPE html><html><head><meta charset=\"utf-8\"></head><body><h1>Links for %s</h1>%s</body></html>" % (pname, "\n".join(rows))
                     final = url if not self.served_at else self.served_at + "/" + m.group(1) + "/"
-                    return FakeResponse(final, 200, page.encode())
+                    return FakeResponse(final, 200, page.encode("utf-8"), self.content_type)
             return FakeResponse(url, 404, b"<html>404</html>")
         return FakeResponse(url, 404, b"<html>404</html>")
 
@@ -128,6 +138,8 @@ class FakeSession:
 
     def get(self, url, stream=False, **kw):
         self.log.append(url)
+        import urllib.parse
+        url = urllib.parse.unquote(url)      # a real session percent-encodes what it sends; the server decodes it
         for idx in self.indexes:
             if idx.handles(url):
                 return idx.get(url)
